@@ -354,6 +354,8 @@ pub fn run(ctx: &mut Ctx) {
     huginn_net_tcp::verif_hooks::clock::clear();
 }
 
+static POOL_STALLS: std::sync::atomic::AtomicU32 = std::sync::atomic::AtomicU32::new(0);
+
 fn pool_and_pcap(ctx: &mut Ctx, r: &mut Rng, t: u64, trace: &[TFrame], cfg: &Cfg, sub: &[&TFrame]) {
     huginn_net_tcp::verif_hooks::clock::set_ms(scenario::T0);
     // the pools identify frames by content: use each distinct frame once, Ethernet/raw only
@@ -362,6 +364,12 @@ fn pool_and_pcap(ctx: &mut Ctx, r: &mut Rng, t: u64, trace: &[TFrame], cfg: &Cfg
     let ptrace: Vec<TFrame> = trace.iter().filter(|f| usable(f) && seen.insert(pool::fnv(&f.frame))).cloned().collect();
     let psub: Vec<TFrame> = ptrace.iter().filter(|f| admitted(cfg, &f.frame)).cloned().collect();
     for kind in [PoolKind::Tcp, PoolKind::Http, PoolKind::Tls] {
+        // a pool that stalls costs the 30 s watchdog; three of them in one shard and the stage
+        // stops asking (the runs so far stay judged / inconclusive as they were)
+        if POOL_STALLS.load(std::sync::atomic::Ordering::Relaxed) >= 3 {
+            ctx.class("filtered-pool stage skipped after three stalled pools in this shard");
+            continue;
+        }
         let Ok(expected) = c10::sequential(kind, &psub, false, |_| scenario::T0) else { continue };
         let pc = PoolCfg { workers: 1 + r.usize(4), queue: ptrace.len() + 8, batch: *r.pick(&[1usize, 32]), timeout_ms: 1, max_conn: 512, with_db: false };
         let filters = Filters {
@@ -381,6 +389,9 @@ fn pool_and_pcap(ctx: &mut Ctx, r: &mut Rng, t: u64, trace: &[TFrame], cfg: &Cfg
             }
         }
         let drained = h.wait_drain(queued, Duration::from_secs(30)) != pool::Drain::Stalled;
+        if !drained {
+            POOL_STALLS.fetch_add(1, std::sync::atomic::Ordering::Relaxed);
+        }
         let results = h.drain_results();
         h.shutdown();
         // the TLS pool refuses frames it cannot hash; those are frames the analyzer cannot attribute either
